@@ -62,7 +62,8 @@ def run(chk):
                 infos.append(i)
         drift_total += len(drifts)
         for d in drifts[:5]:
-            print('MODEL-DRIFT (not a violation): ConnTick and the code disagree at step %(step)s (%(action)s) on %(var)s' % d, d)
+            print('MODEL-DRIFT (not a violation): ConnTick and the code disagree at step %(step)s (%(action)s) on %(var)s' % d, d,
+                  scen, ' '.join(infos[d['id'] - 1]['schedule']), 'unit', infos[d['id'] - 1]['U'])
         for i in infos:
             if not i['loop_alive']:
                 chk.notes.append('executor loop died during %s schedule %s: %s (reported under C05)' % (scen, i['schedule'], i.get('loop_error')))
